@@ -572,6 +572,7 @@ func ChildMain(args []string) int {
 		})
 	}
 	zzsimhook.Yield = s.Yield
+	zzsimhook.YieldBlocked = s.YieldBlocked
 	if tf := os.Getenv("VERIF_C20_TRACE"); tf != "" {
 		f, _ := os.Create(tf)
 		defer f.Close()
@@ -581,7 +582,7 @@ func ChildMain(args []string) int {
 		}
 	}
 	s.Run()
-	zzsimhook.Yield = nil
+	zzsimhook.Yield, zzsimhook.YieldBlocked = nil, nil
 	for _, tk := range s.Finished {
 		if tk.Panic != nil {
 			res.Panics = append(res.Panics, fmt.Sprintf("%s: %v\n%s", tk.Name, tk.Panic, tk.Stack))
